@@ -7,7 +7,7 @@ use multiboot2_common::{MaybeDynSized, Tag};
 
 /// This tag contains VBE metadata, VBE controller information returned by the
 /// VBE Function 00h and VBE mode information returned by the VBE Function 01h.
-#[derive(Copy, Clone, Debug, PartialEq, Eq, PartialOrd, Ord, Hash)]
+#[derive(Copy, Clone, PartialEq, Eq, PartialOrd, Ord, Hash)]
 #[repr(C, align(8))]
 pub struct VBEInfoTag {
     header: TagHeader,
@@ -16,7 +16,11 @@ pub struct VBEInfoTag {
     interface_offset: u16,
     interface_length: u16,
     control_info: VBEControlInfo,
-    mode_info: VBEModeInfo,
+    ///
+    /// This is kept as raw bytes of a [`VBEModeInfo`]: the structure comes from
+    /// the boot loader and contains an enum ([`VBEMemoryModel`]), for which not
+    /// every byte is a valid value. It is validated in [`Self::mode_info`].
+    mode_info: [u8; mem::size_of::<VBEModeInfo>()],
 }
 
 impl VBEInfoTag {
@@ -37,7 +41,8 @@ impl VBEInfoTag {
             interface_offset,
             interface_length,
             control_info,
-            mode_info,
+            // SAFETY: `VBEModeInfo` is `repr(C, packed)` without any padding.
+            mode_info: unsafe { mem::transmute::<VBEModeInfo, [u8; 256]>(mode_info) },
         }
     }
 
@@ -78,8 +83,34 @@ impl VBEInfoTag {
     }
     /// Returns VBE mode information returned by the VBE Function `01h`.
     #[must_use]
+    ///
+    /// # Panics
+    /// Panics if the memory model reported by the boot loader is none of the
+    /// known [`VBEMemoryModel`] variants.
     pub const fn mode_info(&self) -> VBEModeInfo {
-        self.mode_info
+        // Offset of `VBEModeInfo::memory_model`.
+        const MEMORY_MODEL_OFFSET: usize = 27;
+        assert!(
+            self.mode_info[MEMORY_MODEL_OFFSET] <= VBEMemoryModel::YUV as u8,
+            "Unknown VBE memory model. The MBI seems to be corrupt."
+        );
+        // SAFETY: All other fields are valid for every bit pattern and the
+        // memory model was just validated.
+        unsafe { mem::transmute::<[u8; 256], VBEModeInfo>(self.mode_info) }
+    }
+}
+
+impl fmt::Debug for VBEInfoTag {
+    fn fmt(&self, f: &mut fmt::Formatter) -> fmt::Result {
+        f.debug_struct("VBEInfoTag")
+            .field("header", &self.header)
+            .field("mode", &self.mode)
+            .field("interface_segment", &self.interface_segment)
+            .field("interface_offset", &self.interface_offset)
+            .field("interface_length", &self.interface_length)
+            .field("control_info", &self.control_info)
+            .field("mode_info", &self.mode_info())
+            .finish()
     }
 }
 
